@@ -5,6 +5,7 @@ STANDINS  bounded / exhaustive run-time evaluations of assumed contracts (never 
 """
 MODULES = [
     "contracts.c_utils",
+    "contracts.c_parser",
 ]
 
 STANDINS = [
@@ -13,6 +14,7 @@ STANDINS = [
 # level claimed per property (must match MANIFEST.json)
 LEVELS = {
     "C08": "proof",
+    "C09": "proof",
 }
 
 _COMMON = [
